@@ -360,6 +360,7 @@ type rewriter struct {
 	sleepLoop  map[*ast.CallExpr]string
 	cleanLoops map[*ast.ForStmt]string
 	skipRecv map[*ast.UnaryExpr]bool
+	skipSend map[*ast.SendStmt]bool // sends that are the communication of a select clause
 	pkg      *packages.Package
 	probeHits map[string]int
 	file     *ast.File
@@ -571,12 +572,15 @@ func (r *rewriter) run() {
 
 	// 3. statement / expression rewrites
 	r.skipRecv = map[*ast.UnaryExpr]bool{}
+	r.skipSend = map[*ast.SendStmt]bool{}
 	r.findSleepLoops()
 	astutil.Apply(r.file, func(c *astutil.Cursor) bool {
 		if sel, ok := c.Node().(*ast.SelectStmt); ok {
 			for _, cl := range sel.Body.List {
 				cc := cl.(*ast.CommClause)
 				switch s := cc.Comm.(type) {
+				case *ast.SendStmt:
+					r.skipSend[s] = true
 				case *ast.ExprStmt:
 					if u, ok := s.X.(*ast.UnaryExpr); ok {
 						r.skipRecv[u] = true
@@ -619,7 +623,9 @@ func (r *rewriter) run() {
 				c.InsertBefore(&ast.AssignStmt{Lhs: []ast.Expr{ast.NewIdent(tok)}, Tok: token.DEFINE, Rhs: []ast.Expr{r.call("LoopEnter")}})
 			}
 		case *ast.SendStmt:
-			c.Replace(&ast.ExprStmt{X: r.call("Send", n.Chan, n.Value)})
+			if !r.skipSend[n] {
+				c.Replace(&ast.ExprStmt{X: r.call("Send", n.Chan, n.Value)})
+			}
 		case *ast.UnaryExpr:
 			if n.Op != token.ARROW || r.skipRecv[n] {
 				break
